@@ -445,3 +445,64 @@ func literalStoreValues(f *ssa.Function, typeSuffix string) map[string]ssa.Value
 	}
 	return out
 }
+
+// globalBytesLiteral: g is an unexported package-level []byte that only the package initialiser writes, once, with
+// []byte("constant") — and nothing takes its address or writes through it by index. Returns the constant.
+func globalBytesLiteral(g *ssa.Global) (string, bool) {
+	if g.Pkg == nil || token.IsExported(g.Name()) || !isByteSlice(derefType(g.Type())) {
+		return "", false
+	}
+	val, n, good := "", 0, true
+	for _, m := range g.Pkg.Members {
+		f, ok := m.(*ssa.Function)
+		if !ok {
+			continue
+		}
+		for _, fn := range withClosures(f) {
+			isInit := fn.Name() == "init" && fn.Parent() == nil
+			allInstrs(fn, func(in ssa.Instruction) {
+				for _, op := range in.Operands(nil) {
+					if op == nil || *op != ssa.Value(g) {
+						continue
+					}
+					switch x := in.(type) {
+					case *ssa.UnOp:
+						if x.Op != token.MUL {
+							good = false
+							break
+						}
+						// a read: the slice must not be written through
+						for _, r := range *x.Referrers() {
+							switch y := r.(type) {
+							case *ssa.IndexAddr:
+								for _, r2 := range *y.Referrers() {
+									if st, isSt := r2.(*ssa.Store); isSt && st.Addr == ssa.Value(y) {
+										good = false
+									}
+								}
+							}
+						}
+					case *ssa.Store:
+						cv, isCv := x.Val.(*ssa.Convert)
+						if x.Addr != ssa.Value(g) || !isInit || !isCv {
+							good = false
+							break
+						}
+						k, isK := cv.X.(*ssa.Const)
+						if !isK || k.Value == nil || k.Value.Kind() != constant.String {
+							good = false
+							break
+						}
+						val = constant.StringVal(k.Value)
+						n++
+					case *ssa.DebugRef:
+					default:
+						good = false
+					}
+				}
+			})
+		}
+	}
+	// methods of the package's types may also touch it
+	return val, good && n == 1
+}
